@@ -682,6 +682,10 @@ func (fc *FnCtx) indexVal(env *Env, x *Term, xt types.Type, i *Term) (Val, types
 	case *types.Basic:
 		return tb.App("s_at", "Int", x, i), types.Typ[types.Uint8]
 	case *types.Slice:
+		if structElems(u.Elem()) {
+			er := fc.elemRef(tb.App("s_arr", "Ref", x), tb.SIdx(tb.App("s_off", "Int", x), i), u.Elem())
+			return fc.loadStructObj(er, u.Elem(), env.st), u.Elem()
+		}
 		key, es := fc.elemKey(u.Elem())
 		m := fc.heapGet(env.st, key, ArraySort("Ref", ArraySort("Int", es)))
 		return tb.Select(tb.Select(m, tb.App("s_arr", "Ref", x)), tb.SIdx(tb.App("s_off", "Int", x), i)), u.Elem()
